@@ -24,14 +24,22 @@ partial def loop (h : IO.FS.Stream) (out : IO.FS.Stream) (f : String → String)
   | [] => out.putStrLn "bad-line"
   loop h out f
 
+/-- the search properties C01 C03 C04 C10 carry a k-shortest-paths stream (harness/src/c13.rs
+`run_prop_stream`): a case line whose first token is `ksp` is a C13 case.  (The dispatch lives here
+rather than in `Drv/Search.lean` because `Drv/C13.lean` imports that file for its case parser.) -/
+def searchOrKsp (line : String) : String :=
+  match line.trimAscii.toString.splitOn " " with
+  | "ksp" :: rest => Compass.Drv.C13.run (" ".intercalate rest)
+  | _ => Compass.Drv.Search.run line
+
 def dispatch : String → Option (String → String)
   | "C09" => some Compass.Drv.C09.run
-  | "C01" => some Compass.Drv.Search.run
+  | "C01" => some searchOrKsp
   | "C02" => some Compass.Drv.Search.run
-  | "C03" => some Compass.Drv.Search.run
-  | "C04" => some Compass.Drv.Search.run
+  | "C03" => some searchOrKsp
+  | "C04" => some searchOrKsp
   | "C05" => some Compass.Drv.Search.run
-  | "C10" => some Compass.Drv.Search.run
+  | "C10" => some searchOrKsp
   | "C15" => some Compass.Drv.C15.run
   | "C07" => some Compass.Drv.C07.run
   | "C11" => some Compass.Drv.C11.run
